@@ -18,7 +18,7 @@ pub struct Rule {
 
 #[derive(Clone, Debug, Default)]
 pub struct Splice {
-    pub place: String, // before | after | replace | start | end
+    pub place: String, // before | after | replace | start | end | tail | lowered-before | lowered-after (anchor matched on the lowered body)
     pub anchor_src: String,
     pub anchor: Vec<PTok>,
     pub nth: usize,
@@ -326,7 +326,7 @@ fn parse_into(text: &str, path: &str, include_dir: &str, unit: &mut Unit) -> Res
                                 .map_err(|_| format!("{}: bad #n", origin))?;
                             place = place[..i].to_string();
                         }
-                        if !matches!(place.as_str(), "before" | "after" | "replace" | "start" | "end" | "tail") {
+                        if !matches!(place.as_str(), "before" | "after" | "replace" | "start" | "end" | "tail" | "lowered-before" | "lowered-after" | "ret") {
                             return Err(format!("{}: bad splice place `{}`", origin, place));
                         }
                         let anchor = if rest.is_empty() { Vec::new() } else { parse_pattern(&rest)? };
